@@ -45,6 +45,13 @@ func (lr *TypeWriterReadWriteCloser) Write(p []byte) (n int, err error) {
 }
 
 func (lr *TypeWriterReadWriteCloser) Read(p []byte) (n int, err error) {
+	if len(p) == 0 {
+		// the line editor reads into what is left of its input buffer, which
+		// is nothing once a key sequence that never ends has filled it: a
+		// nil error would have it ask again forever, recording every attempt
+		return 0, io.ErrShortBuffer
+	}
+
 	n, err = lr.ReadWriteCloser.Read(p)
 
 	now := time.Now()
